@@ -31,8 +31,10 @@
          pen     cancel.state.fetch_sub(2)  (enable_cancel)
          pd1     set_timeout_handle(None) ; the Park is gone                                   (silent)
     K  the kernel tail: `Park::subscribe` run by `run_coroutine` after P switched out at u3chk
-         k5  cancel.co.store(wait_co)                    (registered BEFORE the coroutine is published; it holds a
-                                                          clone of the coroutine's handle, so the cancel data stay alive)
+         k5d cancel.state.load >= 2 (is_disabled) ? k5x : k5       Cancel::set_co (the tail holds a clone of the
+         k5  cancel.co.store(wait_co)   k5x cancel.co.clear()      coroutine's handle, so the cancel data stay alive;
+                                                                   the slot is registered BEFORE the coroutine is published;
+                                                                   a wait entered with cancellation disabled is not registered)
          k0  timeout.take ; d != 0 ? add_timer(d, wait_co) ; set_timeout_handle             (arming is not hooked)
          k1  wait_kernel.store(true)      k2  wait_co.store(co)
          k3  state.load ? k4 : k5c
@@ -91,7 +93,7 @@ inductive PPc
   deriving DecidableEq, Repr
 
 inductive KPc
-  | kidle | k5 | k0 | k1 | k2 | k3 | k4 | k4r | k5c | kc3 | kc4 | k6
+  | kidle | k5d | k5 | k5x | k0 | k1 | k2 | k3 | k4 | k4r | k5c | kc3 | kc4 | k6
   deriving DecidableEq, Repr
 
 inductive VPc | vidle | v0 | v1 | v2
@@ -226,7 +228,7 @@ def stepP (s : St) (e : Env) : Option St :=
   | .u2store, _ => some { s with tmo := s.dur, ppc := .u3chk }
   | .u3chk, _ =>
       if canc s then some { s with para := .canceled, ppc := .u4chk }
-      else some { s with ppc := .u3wait, kpc := .k5, loc := .ktail, yields := s.yields + 1,
+      else some { s with ppc := .u3wait, kpc := .k5d, loc := .ktail, yields := s.yields + 1,
                          bad := s.bad || (s.kpc != .kidle) }
   | .u3wait, _ => none
   | .u4chk, _ => some { s with ppc := if s.chk then .u4cst else .u5load }
@@ -254,7 +256,9 @@ def stepK (s0 : St) : Option St :=
   let s := ktouch s0
   match s.kpc with
   | .kidle => none
+  | .k5d => some { s with kpc := if s.cdis = 0 then .k5 else .k5x }
   | .k5 => some { s with cco := true, kpc := .k0 }
+  | .k5x => some { s with cco := false, kpc := .k0 }
   | .k0 => some { s with tmo := 0, own := if s.tmo = 0 then s.own else .armed, kpc := .k1 }
   | .k1 => some { s with wk := true, kpc := .k2 }
   | .k2 => some { s with wco := true, loc := .slot, bad := s.bad || s.wco, kpc := .k3 }
